@@ -391,6 +391,8 @@ class Parser:
         raise SpecError('unexpected token %r' % (x,))
     def variable(self, name):
         s = self.scope
+        if name in s['lfuncs'] and name not in s['locals'] and name not in s['args']:
+            return ('lcall', name, [])        # Lingo: the bare name of a handler of this script calls it
         if name in s['locals']:
             return ('loc', name)
         if name in s['args']:
@@ -608,7 +610,9 @@ def pp_e(e):
     if k == 'not':
         return 'not ' + pp_e(e[1])
     if k in ('call', 'lcall'):
-        return e[1] + ('(' + ', '.join(pp_e(a) for a in e[2]) + ')' if e[2] else '')
+        if not e[2]:
+            return e[1] + ('()' if k == 'call' else '')      # the bare name of a handler of this script is a call
+        return e[1] + '(' + ', '.join(pp_e(a) for a in e[2]) + ')'
     if k == 'list':
         return '[' + ', '.join(pp_e(a) for a in e[1]) + ']'
     if k == 'plist':
@@ -735,10 +739,24 @@ def js_e(e):
         return 'propList(' + ', '.join(flat) + ')'
     raise SpecError(k)
 
-def js_call(name, args):
+def js_call(name, args, in_tell=False):
+    """the translator's fixed renamings of commands"""
     a = ', '.join(js_e(x) for x in args)
     if name == 'return':
         return 'return ' + a if a else 'return'
+    if name == 'birth':
+        name = '_movie.newScript'
+    elif name == 'new':
+        name = '_movie.newMember' if (args and args[0][0] == 'sym') else '_movie.newScript'
+    elif name == 'go':
+        pre = '' if in_tell else '_movie.'
+        if len(args) == 1 and args[0][0] == 'sym':
+            return '%sgo%s()' % (pre, args[0][1][:1].upper() + args[0][1][1:].lower())
+        name = pre + 'go'
+    elif name == 'cast':
+        name = 'member'
+    elif name == 'continue':
+        name = 'resume'
     return '%s(%s)' % (name, a)
 
 def cond_js(c):
